@@ -274,7 +274,8 @@ def check(case):
         if ref is None:
             if not r.ok:
                 incon = 'first run did not converge'
-                if op == 'W':
+                # (running out of Newton iterations is a numerical difficulty that depends on the starting values: inconclusive)
+                if op == 'W' and not any('Reached maximum number of iterations' in w for w in r.warnings):
                     # a model that cannot be simulated as built must not become simulable by reset_initial_values():
                     # the rerun after a reset converges although two independent fresh builds do not (twice = not noise)
                     wn.reset_initial_values()
